@@ -270,6 +270,34 @@ func runC18(c *core.Ctx) {
 		expectOut(c, e, "{% if nested == nestedplain %}eq{% else %}ne{% endif %}{% if strs == strsplain %}eq{% else %}ne{% endif %}{% if nested contains plain %}has{% else %}not{% endif %}", b, "eqeqhas",
 			"fixed-array-of-any", "a fixed array with generic elements equals the array with the same Liquid values, whatever Go representation the elements have", nil)
 	}
+	// ---- (6c) two bindings that hold the same map in different Go types; large whole floats in both widths -------------------
+	if c.Shard == 18%c.NShards && c.Begin("maps of different Go types, large float32") {
+		b := map[string]any{"gm": map[string]any{"x": 1, "y": 2}, "tm": map[string]int{"x": 1, "y": 2}, "t8": map[string]uint8{"x": 1, "y": 2}, "fm": map[string]float64{"x": 1, "y": 2}, "dm": gen.DropV{X: map[string]any{"x": 1, "y": 2}},
+			"pm": &map[string]int{"x": 1, "y": 2}, "om": map[string]any{"x": 1, "y": 3}, "nm": gen.NDict{"x": 1, "y": 2}, "sm": map[string]string{"x": "1"}, "gs": map[string]any{"x": "1"}}
+		for _, n := range []string{"tm", "t8", "fm", "dm", "pm", "nm"} {
+			src := strings.ReplaceAll("{% if X == gm %}eq{% else %}ne{% endif %}|{% if gm != X %}ne{% else %}eq{% endif %}|{% if X == om %}eq{% else %}ne{% endif %}|{% assign l = 'a' | split: ',' %}"+
+				"{% case X %}{% when om %}O{% when gm %}G{% else %}E{% endcase %}|{{ X.x }}{{ X.y }}{{ X.size }}|{% if sm == gs %}eq{% else %}ne{% endif %}", "X", n)
+			expectOut(c, e, src, b, "eq|eq|ne|G|122|eq", "typed-map-equality", "a string-keyed typed map behaves as the generic map with the same contents, in comparisons and case/when too", map[string]any{"compared": n + " with gm = map[string]any{x:1, y:2}"})
+			c.Obs("typed_map_equality_cases", 1)
+			c.Distinct("typedmapeq", n)
+		}
+		for _, f := range []float64{2500000, 1 << 30, 16777216, 1e6, 123456789012, -3e9, 1 << 40} {
+			if float64(float32(f)) != f {
+				continue
+			}
+			src := "{{ n }}|{{ n | append: '!' }}|{{ l | join: ',' }}|{{ l[0] }}|{% for x in l %}{{ x }}{% endfor %}|{{ n | plus: 0 }}|{% if n == w %}eq{% endif %}"
+			wide := core.Run(e, src, map[string]any{"n": f, "l": []any{f}, "w": f})
+			narrow := core.Run(e, src, map[string]any{"n": float32(f), "l": []float32{float32(f)}, "w": f})
+			viaDrop := core.Run(e, src, map[string]any{"n": gen.DropV{X: float32(f)}, "l": []any{&gen.DropP{X: float32(f)}}, "w": f})
+			c.Eval(3)
+			c.Obs("large_float32_cases", 1)
+			c.Distinct("bigf32", fmt.Sprint(f))
+			if !narrow.Same(wide) || !viaDrop.Same(wide) {
+				c.Violate("float-widths|large-whole|"+resClass(narrow), "floats of every width print and enter arithmetic by numeric value: a whole float32 prints as the float64 of the same value does",
+					map[string]any{"value": f, "source": src, "float64": wide.Brief(), "float32": narrow.Brief(), "float32_in_drops": viaDrop.Brief()})
+			}
+		}
+	}
 	// ---- (7) empty collections: an empty array is an empty array in every Go representation, an empty map an empty map ------------
 	if c.Shard == 16%c.NShards && c.Begin("empty collections") {
 		tpl := "{{ v | default: 'none' }}|{{ v | size }}|{% if v == empty %}E{% else %}n{% endif %}|{% for x in v %}x{% else %}else{% endfor %}|{% if v %}T{% endif %}|{{ v | first }}|{{ v | join: ',' }}|{{ v | compact | size }}|{{ h.v | default: 'd' }}|{% if v == blank %}B{% endif %}"
